@@ -220,9 +220,9 @@ add("C08", "c_mtproto",
     text="Ids strictly increase, are divisible by 4, decoded time monotone and within 10 ns per call of the highest clock reading; in msg_id order content messages have seq_no 2k+1 and service messages 2k.",
     note="Retransmissions (same id, seq and body) are de-duplicated first.")
 add("C23", "c_mtproto",
-    [T("TestC23", 30000, 250000, env=CONN), T("TestC23Corpus", 1, 1, rapid=False, env=CONN)],
-    rule="payloads handed to the connection's message handler while 0..3 real invocations are pending: generated service messages (rpc_result with plain/gzipped result, rpc_error, pong or nothing inside; pong; msgs_ack; bad_msg_notification; new_session_created; future_salts; unknown types; msg_detailed_info) wrapped in containers and gzip up to depth 4 with req_msg_ids from {a pending id, random}; mutated files of the 14101-entry handle_message corpus; raw bytes with known type ids; plus every corpus file once. non-trivial = payload decodes at least one level or names a pending id; distinct by payload description",
-    technique="grammar-based PBT (rapid) through a build-tagged entry point on the test goroutine + full corpus replay",
+    [T("TestC23", 30000, 250000, env=CONN), T("TestC23Concurrent", 3000, 30000, env=CONN), T("TestC23Corpus", 1, 1, rapid=False, env=CONN)],
+    rule="TestC23Concurrent: 2..4 pending invocations whose Output decoders stop on entry, their results (plain or gzipped, 12..1200 bytes) delivered each on its own goroutine as the read loop does, decoders released in a drawn order (non-trivial = a result is delivered while another call's decoder is stopped); payloads handed to the connection's message handler while 0..3 real invocations are pending: generated service messages (rpc_result with plain/gzipped result, rpc_error, pong or nothing inside; pong; msgs_ack; bad_msg_notification; new_session_created; future_salts; unknown types; msg_detailed_info) wrapped in containers and gzip up to depth 4 with req_msg_ids from {a pending id, random}; mutated files of the 14101-entry handle_message corpus; raw bytes with known type ids; plus every corpus file once. non-trivial = payload decodes at least one level or names a pending id; distinct by payload description",
+    technique="grammar-based PBT (rapid) through a build-tagged entry point on the test goroutine + full corpus replay + owned schedule of concurrently handled results (harness-owned decoders as stop points)",
     text="No panic; a pending invocation completes only by a payload that names its id, with exactly those bytes / that rpc error; the others stay pending and are then completed by an explicit matching result.",
     note="When handling returns an error (malformed sibling, duplicate result) the client drops the rest of that container; delivery of the siblings is not asserted.",
     fuzz=[])
